@@ -195,7 +195,8 @@ fn pass_1_internal(
                 Item::Instruction(op, _) => format!("instr {:?}", op).to_lowercase(),
                 Item::Data(t, items) => format!("data {:?} {} {}", t, items.len(), items.actual_len()).to_lowercase(),
                 Item::ReserveData(n) => format!("byte {}", n),
-                _ => "other".to_string(),
+                Item::Pragma(_) => "pragma".to_string(),
+                _ => "sym".to_string(),
             }),
             address_before,
             cur_address - address_before
